@@ -34,7 +34,14 @@ func (r *Reader) readInfe(b *box) (err error) {
 		infeFastHeaderSize := 21
 
 		var contentType imagetype.ImageType
+		if i+12 > len(buf) {
+			break
+		}
 		size := int(bmffEndian.Uint32(buf[i : i+4]))
+		// an item info entry holds at least its box header and flags and lies inside the iinf box
+		if size < 12 || i+size > len(buf) {
+			return errors.Wrapf(ErrBufLength, "readInfe entry size %d", size)
+		}
 		boxType := boxTypeFromBuf(buf[i+4 : i+8])
 		flags := flags(bmffEndian.Uint32(buf[i+8 : i+12]))
 
@@ -51,6 +58,10 @@ func (r *Reader) readInfe(b *box) (err error) {
 			continue
 		}
 
+		if size < infeFastHeaderSize {
+			i += size
+			continue
+		}
 		itemID := itemID(bmffEndian.Uint16(buf[i+12 : i+14]))
 		itemType := itemTypeFromBuf(buf[i+16 : i+20])
 		// expect whitespace
@@ -62,7 +73,9 @@ func (r *Reader) readInfe(b *box) (err error) {
 		}
 		switch itemType {
 		case itemTypeMime:
-			contentType = imagetype.FromString(string(buf[i+infeFastHeaderSize : i+size-1]))
+			if infeFastHeaderSize < size-1 {
+				contentType = imagetype.FromString(string(buf[i+infeFastHeaderSize : i+size-1]))
+			}
 			r.heic.xml.id = itemID
 		case itemTypeExif:
 			r.heic.exif.id = itemID
